@@ -32,6 +32,7 @@ import MdProofs.Lemmas.WalkGenCfi
 import MdProofs.Lemmas.WalkGenSide
 import MdProofs.Lemmas.WalkGenSideW
 import MdProofs.Lemmas.WalkGenScan
+import MdProofs.Lemmas.WalkGenScanJunk
 import MdProofs.C04Cfi
 namespace MdModel.Walk
 open MdModel
@@ -305,6 +306,15 @@ theorem walk_layout_scan_generated32 (env : Env) (a : Arch) (harch : env.arch = 
   rw [hsp]
   exact preScan_gen_aux env a base tail (gscanWords s0 tail frames) htop frames s0 true (List.replicate s0 0)
     (gscanWords_split s0 tail frames) (by simp) hok
+
+/-- the junk half of `gscanFramesOk` from a record-level fact: in the environment of a world whose
+    modules all start at or above 4096 (`tidy_world`: `≥ 0x10000`) a junk word `< 4096` is no valid
+    instruction, so `gscanFramesOkJ` (windows, junk `< 4096`, return addresses valid) suffices -/
+theorem gscanFramesOk_of_junk (a : Arch) (os : Os) (w : World) (mem : Mem)
+    (hb : ∀ m ∈ w.mods, 4096 ≤ m.base) (first : Bool) (frames : List ScFr)
+    (h : gscanFramesOkJ (mkEnv a os w mem) a first frames = true) :
+    gscanFramesOk (mkEnv a os w mem) a first frames = true :=
+  gscanFramesOk_of_J a os w mem hb frames first h
 
 -- non-vacuity: a MIPS32 two-frame stack (one junk word; then four skipped words, one junk word), ending
 -- with the outermost return-address slot, spelled out
